@@ -256,3 +256,133 @@ def check_C17(chk):
              "scripted OS source (getrandom interposed at link time) and must all equal the specification",
         assumptions=["short deliveries write exactly the reported number of bytes",
                      "the built-in system source is exercised through link-time interposition of getrandom()"])
+
+
+# ----------------------------------------------------------------------------- C18
+TRNG_SRC = 'src/random/tinyjambu-trng-dev-random.c'
+WRAPS = ('getrandom', 'getentropy', 'syscall', 'open', 'read', 'close')
+
+
+def build_trng_variant(chk, name, cc='gcc', opt='-O3'):
+    has = set(HOST_HAS)
+    extra = ''
+    if name in ('getentropy', 'syscall', 'dev'):
+        has.discard('HAVE_GETRANDOM')
+    if name in ('syscall', 'dev'):
+        has.discard('HAVE_GETENTROPY')
+    if name == 'dev':
+        extra = f'-I{VERIF}/harness/shim'
+    od = os.path.join(chk.wd, f'trng-{name}-{cc}{opt}')
+    os.makedirs(od, exist_ok=True)
+    write_config_h(od, has)
+    obj = os.path.join(od, 'trng.o')
+    sh(f"{cc} {opt} -Wall -std=gnu99 -DHAVE_CONFIG_H {extra} -I{REPO}/src -I{od} -c {REPO}/{TRNG_SRC} -o {obj}", check=True)
+    exe = os.path.join(od, 'trngdrive')
+    sh(f"{cc} -O1 {VERIF}/harness/trngdrive.c {obj} {' '.join('-Wl,--wrap=' + w for w in WRAPS)} -o {exe}", check=True)
+    return exe
+
+
+FN2VARIANT = {'getrandom': 'getrandom', 'getentropy': 'getentropy', 'syscall': 'syscall', 'open': 'dev'}
+
+
+def check_C18(chk):
+    anchor_hash(chk, 4)
+    chk.add_model('MC_Trng(safety)', tlc_model(chk.wd, 'MC_Trng', cfg='MC_Trng', workers=4))
+    chk.add_model('MC_Trng(liveness)', tlc_model(chk.wd, 'MC_Trng', cfg='MC_Trng_live', workers=4))
+    # every fault sequence of the model with at most K transient failures, per variant
+    K = 5 if chk.thorough else 3
+    sd = spec_copy(chk.wd)
+    open(os.path.join(sd, 'MC_Trng_plan.cfg'), 'w').write(
+        f"SPECIFICATION Spec\nCONSTANTS MaxTransient = {K}  SimDepth = 100\nINVARIANT PlanOut\nCHECK_DEADLOCK FALSE\n")
+    rc, out = tlc_run(chk.wd, 'MC_Trng', cfg='MC_Trng_plan', workers=1, timeout=600)
+    seqs = {}
+    for line in out.splitlines():
+        m = re.match(r'<<"PLAN", (".*")>>\s*$', line)
+        if m:
+            p = json.loads(json.loads(m.group(1)))
+            seqs.setdefault(p['variant'], []).append(p['seq'])
+    if len(seqs) != 4:
+        raise MachineryError("MC_Trng produced no fault sequences:\n" + out[-1500:])
+    chk.cov['fault_sequences'] = {v: len(s) for v, s in seqs.items()}
+    r = Rng(chk.seed ^ 0xC18)
+    perms = [1, 38, 5, 14, 22, 13, 4 + 100]      # EPERM ENOSYS EIO EFAULT EINVAL EACCES, and an unusual one
+    builds = [('gcc', '-O3')] + ([('clang', '-O2'), ('gcc', '-O0')] if chk.thorough else [])
+    execs, observed = [], set()
+    for cc, opt in builds:
+        for variant in ('getrandom', 'getentropy', 'syscall', 'dev'):
+            exe = build_trng_variant(chk, variant, cc, opt)
+            chk.cov['builds'].append(f"{variant}:{cc}{opt}")
+            lines = []
+            for si, seq in enumerate(seqs[variant]):
+                items = []
+                for o in seq:
+                    if o == 'PERM':
+                        items.append(f"PERM:{perms[si % len(perms)]}")
+                    elif o == 'OPENFAIL':
+                        items.append(f"OPENFAIL:{[2, 13, 24][si % 3]}")
+                    elif o == 'SHORT':
+                        items.append(f"SHORT:{[1, 16, 31][si % 3]}")
+                    else:
+                        items.append(o)
+                lines.append(f"seq id={variant}-{cc}{opt}-{si} prefill={[0, 255, 165, 85][si % 4]} items={','.join(items)}")
+            # long but finite transient runs, then success or a permanent error
+            for n in ([17, 40, 1000] + ([20000] if chk.thorough else [])):
+                for it in ('EINTR', 'EAGAIN'):
+                    lines.append(f"seq id={variant}-{cc}{opt}-long{n}{it} prefill=165 rep={n}:{it} items=OK")
+                lines.append(f"seq id={variant}-{cc}{opt}-long{n}perm prefill=255 rep={n}:EINTR items=EAGAIN,PERM:5")
+            p = subprocess.run([exe], input='\n'.join(lines) + '\n', stdout=subprocess.PIPE, stderr=subprocess.PIPE, text=True, timeout=600)
+            evs = [json.loads(x) for x in p.stdout.splitlines() if x.startswith('{')]
+            if not evs or evs[-1].get('e') != 'End':
+                evs.append({"e": "Fault", "id": evs[-1].get('id', '?') if evs else '?', "op": "trng", "sig": p.returncode, "buf": "none", "rel": 0})
+            else:
+                evs.pop()
+            # one execution per sequence: Start(variant as observed from the first OS call) then its events
+            cur = []
+            for ev in evs:
+                cur.append(ev)
+                if ev['e'] in ('Trng', 'Fault', 'Hang'):
+                    first = next((x for x in cur if x['e'] == 'Os'), None)
+                    v = FN2VARIANT.get(first['fn'], variant) if first else variant
+                    observed.add(v)
+                    execs.append([{"e": "Start", "id": ev['id'], "variant": v}] + cur)
+                    cur = []
+    chk.cov['variants_observed'] = sorted(observed)
+    if not {'getrandom', 'getentropy', 'syscall'} <= observed:
+        raise MachineryError(f"could not build all of the getrandom/getentropy/raw-syscall variants (observed {sorted(observed)})")
+    # TV_Trng has no Reset: concatenate the executions, many per shard
+    packed = [sum(execs[i:i + 40], []) for i in range(0, len(execs), 40)]
+    res = validate(chk.wd, 'TV_Trng', packed, cost=lambda e: 1)
+    chk.add_validation('TV_Trng', res, packed, nontrivial=lambda e: e.get('e') == 'Trng')
+    chk.cov['traces_validated_against_impl'] += len(execs) - len(packed)
+    seen = set()
+    for (xi, ev, mm) in res['mismatches']:
+        key = ev.get('id')
+        if key in seen:
+            continue
+        seen.add(key)
+        ex = [x for x in execs if x[0]['id'] == key]
+        chk.violation(f"system entropy source, sequence {key}: {json.dumps(mm.get('expected'))[:200]}",
+                      dict(trace_spec='TV_Trng', events=trim(ex[0] if ex else ev, 40), expected=mm.get('expected')))
+    # the PRNG on top of a failing system source: reports 'not seeded' and stays usable
+    exe = build_prng_driver(chk)
+    groups = []
+    for si, p in enumerate([('none',), ('none', 'none', 'full'), ('full', 'none')]):
+        for src in ('plain', 'null'):
+            ops = [dict(op='pinit', arg=[0, 7][si % 2], src=src), dict(op='pgen', arg=64), dict(op='preseed'), dict(op='pgen', arg=40),
+                   dict(op='plimit', arg=32), dict(op='pgen', arg=64)]
+            groups.append(history_lines(r, f"os{si}-{src}", ops, list(p), obj=si, src=src))
+    ex2 = run_exec_groups(exe, groups)
+    annotate_ctl(ex2, groups)
+    judge_p(chk, ex2, groups)
+    chk.sample([trim(e, 8) for e in execs[3]])
+    chk.sample([trim(e, 8) for e in execs[-1][:4] + execs[-1][-1:]])
+    chk.finish(
+        rule="MC_Trng: TLC exhaustive over every OS outcome sequence with up to 8 transient failures for the four build variants "
+             "(safety: success iff OK before any permanent error, zeroed buffer on failure, no descriptor leak, one verdict; "
+             "liveness under fairness: the call returns); every sequence of the model with up to K transients (plus runs of "
+             "17/40/1000 transients, short reads, open failures, several errno values) is injected into the real source file "
+             "built as getrandom / getentropy / raw syscall / /dev/urandom variants through link-time interposition, and TLC "
+             "validates each recorded OS-call trace against the machine of TJTrng; the PRNG on top of a failing source is "
+             "validated against TJDrbg (status 0, usable, zero seed)",
+        assumptions=["end-of-file on /dev/urandom (read returning 0) is not in the property's fault alphabet and is not injected",
+                     "the variant of a build is recognised from the first OS function it calls"])
